@@ -45,6 +45,7 @@ class Table(dict):
         return KLONG_UNDEFINED if v is None else v.values
 
     def set(self, x, y):
+        self.commit()
         self._df[x] = y
         self.columns = list(self._df.columns)
 
